@@ -60,6 +60,10 @@ def run(ck):
     from ..report import RuleView
     from . import c08
     c08._joined_row(RuleView(ck, {"C08.6": "C04.9"}))
+    ck.clause("C04.11", "the conflicting sub-run handed to the trim reaches to the end of the overlap whatever unpaired labels lie in it "
+                        "(slice window, as C15.4): a sub-run cut short leaves labels in both segments, scored twice")
+    from .c15 import slice_window
+    slice_window(RuleView(ck, {"C15.4": "C04.11"}))
     ck.clause("C04.10", "no label is scored in two segments of a record: each overlapping sub-run is cut at the index from its own "
                         "index table (as C15.5)")
     from . import c15
@@ -143,6 +147,16 @@ def wiring(ck):
                     ck.violation("C04.1", f"factory:{cls.name}.{pname}", where(factory, node),
                                  f"parameter {pname} of {cls.name} is bound to a literal although the command line offers "
                                  f"{cands}", found=T.show(t), required=f"self.args.{cands[0]}")
+        # a configured value that is altered on its way into the component (clamped, scaled, combined with another option)
+        for pname, t in new[2]:
+            if t[0] == "attr" and t[1] == args_t:
+                continue
+            touched = [x[2] for x in T.subterms(t) if x[0] == "attr" and x[1] == args_t]
+            if touched and t[0] not in ("new", "app") and not any(y[0] in ("new",) for y in T.subterms(t)):
+                ck.violation("C04.1", f"factory:{cls.name}.{pname}:altered", where(factory, node),
+                             f"parameter {pname} of {cls.name} does not receive the command-line value itself but an expression over "
+                             f"{sorted(set(touched))}: the component then works with a setting the user did not give",
+                             found=T.show(t)[:160], required=f"self.args.<option> passed through unchanged")
         if not bound_fields:
             continue
         w = where(factory, node)
